@@ -70,6 +70,7 @@ type Contract struct {
 	Entry             bool // an entry point of the chain (message handler or block function)
 	Reader            bool // reads the invariant's state only; its callers need no contract
 	InlineOwn         bool
+	ModularFor        []string // used by contract only when one of these functions is under verification
 	CallersAssumed    string
 	CallersAssumedFor map[string]string
 	Instances         []ast.Expr
@@ -536,6 +537,15 @@ func (ss *SpecSet) directive(cur **Contract, pkgPath, file string, ln int, body 
 		// under verification see the body (both are sound; the body keeps the detail the
 		// module's own invariants need)
 		(*cur).InlineOwn = true
+	case "modular-for":
+		// modular-for <FuncKey>, <FuncKey>: the contract (with its modifies clause) stands in
+		// for the body only while one of the named functions is verified; everywhere else the
+		// body is executed in line, as for a contract without a frame
+		for _, k := range strings.Split(rest, ",") {
+			if k = strings.TrimSpace(k); k != "" {
+				(*cur).ModularFor = append((*cur).ModularFor, k)
+			}
+		}
 	case "decabstract":
 		(*cur).DecAbs = true
 	case "forall":
